@@ -13,16 +13,16 @@ open BtcVerif.Spec.Script BtcVerif.Model.Script
 
 theorem cscriptOpNew_signedByte (b : UInt8) : cscriptOpNew (signedByte b) = .ok b.toNat := by
   have := b.toNat_lt
-  unfold cscriptOpNew signedByte
+  unfold cscriptOpNew cscriptOpNewSt signedByte
   by_cases h : b.toNat < 128
   · simp only [h, if_true]
     rw [if_pos (by omega)]; simp
   · simp only [h, if_false]
     rw [if_neg (by omega), if_pos (by omega)]
-    congr 1; omega
+    simp only [Except.ok.injEq]; omega
 
 theorem cscriptOpNew_nat (n : Nat) (h : n < 256) : cscriptOpNew (n : Int) = .ok n := by
-  unfold cscriptOpNew
+  unfold cscriptOpNew cscriptOpNewSt
   rw [if_pos (by omega)]; simp
 
 theorem decodeOpN_small (n : Nat) (h : 0x51 ≤ n ∧ n ≤ 0x60) : decodeOpN n = .ok (decodeOPN n) := by
